@@ -705,6 +705,11 @@ func checkC10(w *World, r *Recorder) propInfo {
 	// canonical name (the GetProfile cells, C07-P4), and the encoder emits the
 	// stored string
 	importRules(w, r, checkC07, "C10-W13", func(o *Oblig) bool { return o.Rule == "C07-P4" })
+	// W14: the payload the signing path emits is the package encoder's output
+	// for the attached claims themselves (C03-S1 run again under this
+	// property): a copy with a claim added or removed for signing puts keys on
+	// the wire that are not the claims that are set
+	importRules(w, r, checkC03, "C10-W14", func(o *Oblig) bool { return o.Rule == "C03-S1" })
 	r.Floor("C10-W1", 26)
 	r.Floor("C10-W3", 26)
 	r.Floor("C10-W4", 1)
